@@ -486,6 +486,11 @@ class CausalInference(object):
         [1] Perkovic, Emilija, et al. "Complete graphical characterization and construction of adjustment sets in Markov equivalence classes of ancestral graphs." The Journal of Machine Learning Research 18.1 (2017): 8132-8193.
         """
         backdoor_graph = self.get_proper_backdoor_graph([X], [Y], inplace=False)
+        # Descendants of X can never be part of an adjustment set; exclude them from
+        # the separator search the same way unobserved variables are excluded.
+        backdoor_graph.latents = set(backdoor_graph.latents) | nx.descendants(
+            self.model, X
+        )
         return backdoor_graph.minimal_dseparator(X, Y)
 
     def query(
